@@ -1248,6 +1248,33 @@ def special_c13(prop, tier, seed, bins, out, problems):
         et = [norm_line(l) for l in lt if l.startswith("E ")]
         if ea != et:
             k = next((i for i in range(max(len(ea), len(et))) if (ea[i] if i < len(ea) else None) != (et[i] if i < len(et) else None)), 0)
+            # "the same schedule" means something only while both perform the same shared-memory accesses: if the first
+            # difference of the two traces is a step (an L line), the interleavings are not comparable any more, and the
+            # difference of the events may be an artefact.  Then the two are compared under a schedule that does not
+            # depend on the number of steps: one thread after the other
+            fa = [norm_line(l) for l in la if not l.startswith(("sched ", "Z "))]
+            ft = [norm_line(l) for l in lt if not l.startswith(("sched ", "Z "))]
+            j = next((i for i in range(min(len(fa), len(ft))) if fa[i] != ft[i]), min(len(fa), len(ft)))
+            first_is_event = (fa[j] if j < len(fa) else "E").startswith("E ") and (ft[j] if j < len(ft) else "E").startswith("E ")
+            if not first_is_event:
+                ca, ct = json.loads(json.dumps(c)), json.loads(json.dumps(c))
+                serial = [t for t in range(len(c["progs"])) for _ in range(3000)]
+                for x in (ca, ct):
+                    x["sched"] = list(serial)
+                ct["env"]["adaptor"] = "none"
+                sa, da = run_impl(binp, [ca])
+                st, dt = run_impl(binp, [ct])
+                sea = [norm_line(l) for l in parse_blocks(sa)[0].get(cid, []) if l.startswith("E ")]
+                set_ = [norm_line(l) for l in parse_blocks(st)[0].get(cid, []) if l.startswith("E ")]
+                if not da and not dt and sea == set_:
+                    out["divergences"].append(dict(case=c, stream="twin", impl_trace=la, model_trace=lt,
+                                                   what="adaptor and underlying iterator perform different shared-memory accesses (first difference at line %d: underlying `%s` / adaptor `%s`); "
+                                                        "with one thread after the other they behave alike" % (j, ft[j] if j < len(ft) else "<nothing>", fa[j] if j < len(fa) else "<nothing>")))
+                    continue
+                if not da and not dt:
+                    k = next((i for i in range(max(len(sea), len(set_))) if (sea[i] if i < len(sea) else None) != (set_[i] if i < len(set_) else None)), 0)
+                    c = dict(ca, sched=sched_of(parse_blocks(sa)[0].get(cid, [])) or serial)
+                    la, lt, ea, et = parse_blocks(sa)[0].get(cid, []), parse_blocks(st)[0].get(cid, []), sea, set_
             out["violations"].append(dict(case=c, stream="twin", checker="twin", impl_trace=la, model_trace=lt,
                                           what="the adaptor and the underlying iterator, driven by the same operations under the same schedule, differ at event %d: adaptor `%s` / underlying `%s`"
                                                % (k, ea[k] if k < len(ea) else "<nothing>", et[k] if k < len(et) else "<nothing>")))
